@@ -379,111 +379,185 @@ func runC17(w *World, r *Report) {
 			r.Fail(VUndecided, "maskcheck", nb.Key, "", npos, "cannot identify the big integers that become the field's value and mask")
 		} else {
 			// accepted idioms: t := And(value, mask); value.Cmp(t) != 0 → error   |   AndNot(value, mask).Sign()/BitLen() != 0 → error
-			found := false
 			tampered := ""
-			inspectParts(func(n ast.Node) bool {
-				is, ok := n.(*ast.IfStmt)
-				if !ok {
-					return true
-				}
-				retErr := false
-				for _, bs := range is.Body.List {
-					if rs, ok := bs.(*ast.ReturnStmt); ok && len(rs.Results) == 2 {
-						if id, ok := unparen(rs.Results[0]).(*ast.Ident); ok && id.Name == "nil" {
-							if id2, ok2 := unparen(rs.Results[1]).(*ast.Ident); !ok2 || id2.Name != "nil" {
+			scan := func(inspectParts func(func(ast.Node) bool), info *types.Info, valueObj, maskObj types.Object, helperMode bool) bool {
+				found := false
+				inspectParts(func(n ast.Node) bool {
+					is, ok := n.(*ast.IfStmt)
+					if !ok {
+						return true
+					}
+					retErr := false
+					for _, bs := range is.Body.List {
+						if rs, ok := bs.(*ast.ReturnStmt); ok && len(rs.Results) == 2 {
+							if id, ok := unparen(rs.Results[0]).(*ast.Ident); ok && id.Name == "nil" {
+								if id2, ok2 := unparen(rs.Results[1]).(*ast.Ident); !ok2 || id2.Name != "nil" {
+									retErr = true
+								}
+							}
+						}
+						// inside a helper whose only result is the error
+						if rs, ok := bs.(*ast.ReturnStmt); ok && helperMode && len(rs.Results) == 1 {
+							if id, ok := unparen(rs.Results[0]).(*ast.Ident); !ok || id.Name != "nil" {
 								retErr = true
 							}
 						}
 					}
-				}
-				be, ok := unparen(is.Cond).(*ast.BinaryExpr)
-				if !retErr || !ok || be.Op != token.NEQ {
-					return true
-				}
-				if v, isC := constIntOf(info, be.Y); !isC || v != 0 {
-					return true
-				}
-				call, ok := unparen(be.X).(*ast.CallExpr)
-				if !ok {
-					return true
-				}
-				se, ok := unparen(call.Fun).(*ast.SelectorExpr)
-				if !ok {
-					return true
-				}
-				// bigAnd(e): e is (or is a variable assigned from) X.And(value, mask) / X.AndNot(value, mask)
-				var bigOp func(e ast.Expr, op string) bool
-				var andObj types.Object
-				andPos := token.NoPos
-				bigOp = func(e ast.Expr, op string) bool {
-					if o := identObj(info, e); o != nil {
-						ok2 := false
+					be, ok := unparen(is.Cond).(*ast.BinaryExpr)
+					if !retErr || !ok || be.Op != token.NEQ {
+						return true
+					}
+					if v, isC := constIntOf(info, be.Y); !isC || v != 0 {
+						return true
+					}
+					call, ok := unparen(be.X).(*ast.CallExpr)
+					if !ok {
+						return true
+					}
+					se, ok := unparen(call.Fun).(*ast.SelectorExpr)
+					if !ok {
+						return true
+					}
+					// bigAnd(e): e is (or is a variable assigned from) X.And(value, mask) / X.AndNot(value, mask)
+					var bigOp func(e ast.Expr, op string) bool
+					var andObj types.Object
+					andPos := token.NoPos
+					bigOp = func(e ast.Expr, op string) bool {
+						if o := identObj(info, e); o != nil {
+							ok2 := false
+							inspectParts(func(m ast.Node) bool {
+								if a2, ok := m.(*ast.AssignStmt); ok && len(a2.Lhs) == 1 && len(a2.Rhs) == 1 && identObj(info, a2.Lhs[0]) == o && a2.Pos() < is.Pos() {
+									if bigOp(a2.Rhs[0], op) {
+										ok2 = true
+										andObj, andPos = o, a2.End()
+									}
+								}
+								return true
+							})
+							return ok2
+						}
+						c2, ok := unparen(e).(*ast.CallExpr)
+						if !ok || len(c2.Args) != 2 {
+							return false
+						}
+						s2, ok := unparen(c2.Fun).(*ast.SelectorExpr)
+						if !ok || s2.Sel.Name != op {
+							return false
+						}
+						a0, a1 := identObj(info, c2.Args[0]), identObj(info, c2.Args[1])
+						if op == "And" {
+							return (a0 == valueObj && a1 == maskObj) || (a0 == maskObj && a1 == valueObj)
+						}
+						return a0 == valueObj && a1 == maskObj
+					}
+					// between taking value AND mask and testing it, none of the three integers is written (a method called
+					// on one of them stores into it): a "second try" that shifts the value back and masks again accepts
+					// what the first comparison would have refused
+					untouched := func() bool {
+						if andPos == token.NoPos {
+							return true
+						}
+						clean := true
 						inspectParts(func(m ast.Node) bool {
-							if a2, ok := m.(*ast.AssignStmt); ok && len(a2.Lhs) == 1 && len(a2.Rhs) == 1 && identObj(info, a2.Lhs[0]) == o && a2.Pos() < is.Pos() {
-								if bigOp(a2.Rhs[0], op) {
-									ok2 = true
-									andObj, andPos = o, a2.End()
+							c3, ok := m.(*ast.CallExpr)
+							if !ok || c3.Pos() <= andPos || c3.Pos() >= is.Pos() {
+								return true
+							}
+							if s3, ok := unparen(c3.Fun).(*ast.SelectorExpr); ok {
+								if o := identObj(info, s3.X); o != nil && (o == valueObj || o == maskObj || o == andObj) {
+									if fn, ok := info.Uses[s3.Sel].(*types.Func); ok && fn.Pkg() != nil && fn.Pkg().Path() == "math/big" {
+										if sig := fn.Type().(*types.Signature); sig.Results().Len() == 1 && types.Identical(sig.Results().At(0).Type(), sig.Recv().Type()) {
+											clean = false // z.Op(x, y) stores into z
+											tampered = w.Pos(c3.Pos())
+										}
+									}
 								}
 							}
 							return true
 						})
-						return ok2
+						return clean
 					}
-					c2, ok := unparen(e).(*ast.CallExpr)
-					if !ok || len(c2.Args) != 2 {
-						return false
-					}
-					s2, ok := unparen(c2.Fun).(*ast.SelectorExpr)
-					if !ok || s2.Sel.Name != op {
-						return false
-					}
-					a0, a1 := identObj(info, c2.Args[0]), identObj(info, c2.Args[1])
-					if op == "And" {
-						return (a0 == valueObj && a1 == maskObj) || (a0 == maskObj && a1 == valueObj)
-					}
-					return a0 == valueObj && a1 == maskObj
-				}
-				// between taking value AND mask and testing it, none of the three integers is written (a method called
-				// on one of them stores into it): a "second try" that shifts the value back and masks again accepts
-				// what the first comparison would have refused
-				untouched := func() bool {
-					if andPos == token.NoPos {
-						return true
-					}
-					clean := true
-					inspectParts(func(m ast.Node) bool {
-						c3, ok := m.(*ast.CallExpr)
-						if !ok || c3.Pos() <= andPos || c3.Pos() >= is.Pos() {
-							return true
-						}
-						if s3, ok := unparen(c3.Fun).(*ast.SelectorExpr); ok {
-							if o := identObj(info, s3.X); o != nil && (o == valueObj || o == maskObj || o == andObj) {
-								if fn, ok := info.Uses[s3.Sel].(*types.Func); ok && fn.Pkg() != nil && fn.Pkg().Path() == "math/big" {
-									if sig := fn.Type().(*types.Signature); sig.Results().Len() == 1 && types.Identical(sig.Results().At(0).Type(), sig.Recv().Type()) {
-										clean = false // z.Op(x, y) stores into z
-										tampered = w.Pos(c3.Pos())
-									}
-								}
+					switch se.Sel.Name {
+					case "Cmp":
+						if len(call.Args) == 1 && ((identObj(info, se.X) == valueObj && bigOp(call.Args[0], "And")) || (identObj(info, call.Args[0]) == valueObj && bigOp(se.X, "And"))) {
+							if untouched() {
+								found = true
 							}
 						}
-						return true
-					})
-					return clean
-				}
-				switch se.Sel.Name {
-				case "Cmp":
-					if len(call.Args) == 1 && ((identObj(info, se.X) == valueObj && bigOp(call.Args[0], "And")) || (identObj(info, call.Args[0]) == valueObj && bigOp(se.X, "And"))) {
-						if untouched() {
+					case "Sign", "BitLen":
+						if bigOp(se.X, "AndNot") {
 							found = true
 						}
 					}
-				case "Sign", "BitLen":
-					if bigOp(se.X, "AndNot") {
+					return true
+				})
+				return found
+			}
+			found := scan(inspectParts, info, valueObj, maskObj, false)
+			if !found {
+				// the test moved into a helper: `if err := check(value, mask); err != nil { return nil, err }` — the
+				// helper must contain the test on its own parameters and return a non-nil error from it
+				inspectParts(func(n ast.Node) bool {
+					is, ok := n.(*ast.IfStmt)
+					if !ok || found {
+						return true
+					}
+					be, ok := unparen(is.Cond).(*ast.BinaryExpr)
+					if !ok || be.Op != token.NEQ {
+						return true
+					}
+					if id, ok := unparen(be.Y).(*ast.Ident); !ok || id.Name != "nil" {
+						return true
+					}
+					errObj := identObj(info, be.X)
+					if errObj == nil {
+						return true
+					}
+					passes := false
+					for _, bs := range is.Body.List {
+						if rs, ok := bs.(*ast.ReturnStmt); ok && len(rs.Results) == 2 && identObj(info, rs.Results[1]) == errObj {
+							if id, ok := unparen(rs.Results[0]).(*ast.Ident); ok && id.Name == "nil" {
+								passes = true
+							}
+						}
+					}
+					as, ok := is.Init.(*ast.AssignStmt)
+					if !passes || !ok || len(as.Lhs) != 1 || len(as.Rhs) != 1 || identObj(info, as.Lhs[0]) != errObj {
+						return true
+					}
+					call, ok := unparen(as.Rhs[0]).(*ast.CallExpr)
+					if !ok {
+						return true
+					}
+					fnc, _ := typeutil.Callee(info, call).(*types.Func)
+					hf := w.FuncOf(fnc)
+					if hf == nil || hf.Decl.Body == nil || hf.Decl.Type.Results == nil || len(hf.Decl.Type.Results.List) != 1 {
+						return true
+					}
+					var pv, pm types.Object
+					pi := 0
+					for _, fl := range hf.Decl.Type.Params.List {
+						for _, nm := range fl.Names {
+							if pi < len(call.Args) {
+								switch identObj(info, call.Args[pi]) {
+								case valueObj:
+									pv = hf.Pkg.TypesInfo.Defs[nm]
+								case maskObj:
+									pm = hf.Pkg.TypesInfo.Defs[nm]
+								}
+							}
+							pi++
+						}
+					}
+					if pv == nil || pm == nil {
+						return true
+					}
+					if scan(func(f func(ast.Node) bool) { ast.Inspect(hf.Decl.Body, f) }, hf.Pkg.TypesInfo, pv, pm, true) {
 						found = true
 					}
-				}
-				return true
-			})
+					return true
+				})
+			}
 			if found {
 				r.OK("maskcheck", nb.Key, "", npos, "value is compared with value AND mask (or value AND-NOT mask with zero) and a difference returns an error", true)
 			} else if tampered != "" {
